@@ -2,6 +2,7 @@ package main
 
 import (
 	"fmt"
+	"go/ast"
 	"go/constant"
 	"go/token"
 	"go/types"
@@ -1909,4 +1910,122 @@ func ruleCoerceBeforeHandler(c *Ctx) {
 		c.Sites++
 		c.check(hit == nil && len(callsTo(fn, tg.lk)) > 0, R, tg.key+":converts-before-looking-for-a-handler", pos, "with operands that convert to numbers the handler lookup is not reached", tg.key+" looks for a metamethod before it tries to convert its string operands: with an __add (or __unm) in the string metatable \"10\" + 1 calls the handler instead of yielding 11")
 	}
+}
+
+// ruleParenKeepsFunctionLine: F90. linedefined is the line recorded in the FunctionExpr node when the
+// parser builds it (the line of the `function` keyword). A grammar action that re-stamps an EXISTING
+// expression node it was handed (`$$ = $2; $$.SetLine(...)`) must leave function expressions alone.
+// Decided on the syntax tree of the generated parser with type information: in every case of
+// yyParserImpl.Parse, a SetLine on the result expression after that result was taken over from a
+// right-hand-side symbol must sit under a type test that excludes *ast.FunctionExpr.
+func ruleParenKeepsFunctionLine(c *Ctx) {
+	const R = "R17-lines"
+	p := c.P
+	pk := p.Pkg("parse")
+	if pk == nil {
+		c.und(R, "parser:taken-over-function-node-keeps-its-line", "-", "package parse not loaded")
+		return
+	}
+	info := pk.TypesInfo
+	isSym := func(e ast.Expr) bool { // expression of the parser's symbol type
+		t := info.TypeOf(e)
+		return t != nil && typeName(t) == "parse.yySymType"
+	}
+	exprField := func(e ast.Expr) (ast.Expr, bool) { // X.expr with X of symbol type
+		se, ok := e.(*ast.SelectorExpr)
+		if !ok || !isSym(se.X) {
+			return nil, false
+		}
+		if t := info.TypeOf(se); t == nil || typeName(t) != "ast.Expr" {
+			return nil, false
+		}
+		return se.X, true
+	}
+	sites, reusedSites := 0, 0
+	var bad ast.Node
+	for _, f := range pk.Syntax {
+		for _, d := range f.Decls {
+			fd, ok := d.(*ast.FuncDecl)
+			if !ok || fd.Body == nil || fd.Name.Name != "Parse" || fd.Recv == nil {
+				continue
+			}
+			ast.Inspect(fd.Body, func(n ast.Node) bool {
+				cc, ok := n.(*ast.CaseClause)
+				if !ok {
+					return true
+				}
+				reused := false
+				var walk func(stmts []ast.Stmt, guarded bool)
+				walk = func(stmts []ast.Stmt, guarded bool) {
+					for _, st := range stmts {
+						switch x := st.(type) {
+						case *ast.BlockStmt:
+							walk(x.List, guarded)
+						case *ast.AssignStmt:
+							if len(x.Lhs) == 1 && len(x.Rhs) == 1 {
+								if base, ok := exprField(x.Lhs[0]); ok {
+									if _, isIdx := base.(*ast.IndexExpr); !isIdx {
+										// result symbol: where does the node come from?
+										reused = false
+										if rb, ok := exprField(x.Rhs[0]); ok {
+											if _, isIdx := rb.(*ast.IndexExpr); isIdx {
+												reused = true
+											}
+										}
+									}
+								}
+							}
+						case *ast.IfStmt:
+							g := guarded
+							// `_, ok := X.(*ast.FunctionExpr); !ok`
+							if as, ok := x.Init.(*ast.AssignStmt); ok && len(as.Rhs) == 1 {
+								if ta, ok := as.Rhs[0].(*ast.TypeAssertExpr); ok && ta.Type != nil {
+									if t := info.TypeOf(ta.Type); t != nil && typeName(t) == "ast.FunctionExpr" {
+										if u, ok := x.Cond.(*ast.UnaryExpr); ok && u.Op == token.NOT {
+											g = true
+										}
+									}
+								}
+							}
+							walk(x.Body.List, g)
+							if x.Else != nil {
+								walk([]ast.Stmt{x.Else}, guarded)
+							}
+						case *ast.ExprStmt:
+							call, ok := x.X.(*ast.CallExpr)
+							if !ok {
+								continue
+							}
+							se, ok := call.Fun.(*ast.SelectorExpr)
+							if !ok || se.Sel.Name != "SetLine" {
+								continue
+							}
+							base, ok := exprField(se.X)
+							if !ok {
+								continue
+							}
+							if _, isIdx := base.(*ast.IndexExpr); isIdx {
+								continue
+							}
+							sites++
+							if reused {
+								reusedSites++
+								if !guarded && bad == nil {
+									bad = x
+								}
+							}
+						}
+					}
+				}
+				walk(cc.Body, false)
+				return false
+			})
+		}
+	}
+	c.Sites += sites
+	pos := "-"
+	if bad != nil {
+		pos = p.pos(bad.Pos())
+	}
+	c.check(sites >= 20 && reusedSites >= 1 && bad == nil, R, "parser:taken-over-function-node-keeps-its-line", pos, fmt.Sprintf("%d SetLine calls on result expressions, %d of them on a node taken over from a symbol, all under a test that excludes function expressions", sites, reusedSites), "a grammar action re-stamps an expression node it took over from one of its symbols without excluding function expressions: '(' newline 'function() … end' ')' reports the line of the parenthesis as linedefined")
 }
